@@ -136,6 +136,7 @@ def kernel_state_writers(ctx, prop):
         'the simulation clock is written only from popped agenda keys')
     check_writers(ctx, prop + '.W.agenda', '_queue', {
         'Environment.__init__': 'empty agenda', 'Environment.schedule': 'heappush', 'Environment.step': 'heappop',
+        'Environment.run': 'heappush of the private until-sentinel at exactly the stop time',
         'Resource.__init__': 'Resource._queue is the request queue alias (different object)'}, 3,
         'the agenda is mutated only by schedule (push) and step (pop)')
     check_writers(ctx, prop + '.W.counter', '_eid', {'Environment.__init__': 'fresh counter'}, 1,
@@ -147,7 +148,7 @@ def kernel_state_writers(ctx, prop):
         for node in walk_local(f.node):
             if isinstance(node, ast.Attribute) and node.attr == '_eid' and isinstance(node.ctx, ast.Load):
                 n += 1
-                ok = root_callers(ctx.repo, f, stop=('Environment.schedule',)) == {'Environment.schedule'}
+                ok = root_callers(ctx.repo, f, stop=('Environment.schedule', 'Environment.run')) <= {'Environment.schedule', 'Environment.run'}
                 ctx.ob(rule, ok)
                 if not ok:
                     ctx.violation(rule, '%s::%s' % (f.module.relpath, f.qualname), 'read of ._eid',
@@ -174,11 +175,19 @@ def schedule_sites(ctx, prop):
     n = 0
     for f in ctx.repo.all_functions():
         for node in walk_local(f.node):
-            if isinstance(node, ast.Call) and isinstance(node.func, ast.Attribute) and node.func.attr == 'schedule':
+            is_sched = isinstance(node, ast.Call) and isinstance(node.func, ast.Attribute) and node.func.attr == 'schedule'
+            # a direct push onto the agenda outside schedule() is a scheduling site too: (time, priority, id, event)
+            is_push = isinstance(node, ast.Call) and isinstance(node.func, ast.Name) and node.func.id == 'heappush' \
+                and len(node.args) == 2 and isinstance(node.args[0], ast.Attribute) and node.args[0].attr == '_queue' \
+                and f.qualname != 'Environment.schedule'
+            if is_sched or is_push:
                 n += 1
                 ctx.touch(f)
                 pr = None
-                if len(node.args) >= 2:
+                if is_push:
+                    tup = node.args[1]
+                    pr = tup.elts[1] if isinstance(tup, ast.Tuple) and len(tup.elts) == 4 else ast.Constant(value='?')
+                elif len(node.args) >= 2:
                     pr = node.args[1]
                 for k in node.keywords:
                     if k.arg == 'priority':
